@@ -4,6 +4,7 @@
 package main
 
 import (
+	"crypto/sha256"
 	"fmt"
 	"math/rand"
 	"time"
@@ -144,6 +145,12 @@ func tieHistory(rng *rand.Rand, nchildren, nversions int, commit bool) *annot.In
 				t = t.Add(time.Second)
 			} // else: next version in the same second
 		}
+		if commit && rng.Intn(4) == 0 && len(h.Versions) >= 3 {
+			// an element timestamp that is absent in the source and was filled with an early date
+			// (before 1970) while the commit time is known: the update carries that timestamp
+			k := 1 + rng.Intn(len(h.Versions)-1)
+			h.Versions[k].Timestamp = time.Date(1969-rng.Intn(200), 6, 1, 0, 0, rng.Intn(60), 0, time.UTC)
+		}
 		if rng.Intn(3) == 0 && len(h.Versions) >= 4 {
 			// clock skew: a version stamped a few seconds BEFORE its predecessor (still after the way)
 			k := 2 + rng.Intn(len(h.Versions)-2)
@@ -164,6 +171,7 @@ func sortCase(rng *rand.Rand, n int) *wire.Case {
 	c.Int(2)
 	base := osm.CommitInfoStart.Add(24 * time.Hour)
 	seen := map[[3]int]bool{}
+	old := rng.Intn(3) == 0
 	var us osm.Updates
 	for len(us) < n {
 		k := [3]int{rng.Intn(4), rng.Intn(4), 1 + rng.Intn(12)}
@@ -174,7 +182,11 @@ func sortCase(rng *rand.Rand, n int) *wire.Case {
 			continue
 		}
 		seen[k] = true
-		us = append(us, osm.Update{Index: k[0], Timestamp: annot.Rezone(rng, base.Add(time.Duration(k[1])*time.Second)), Version: k[2],
+		ts := base.Add(time.Duration(k[1]) * time.Second)
+		if old && k[1] == 0 {
+			ts = time.Date(1960, 1, 1, 0, 0, 0, 0, time.UTC) // before 1970: negative Unix seconds
+		}
+		us = append(us, osm.Update{Index: k[0], Timestamp: annot.Rezone(rng, ts), Version: k[2],
 			ChangesetID: osm.ChangesetID(rng.Intn(50)), Lat: float64(rng.Intn(90)), Lon: float64(rng.Intn(90)), Reverse: rng.Intn(4) == 0})
 	}
 	c.Len(len(us))
@@ -199,24 +211,32 @@ func sortCase(rng *rand.Rand, n int) *wire.Case {
 	return c
 }
 
-// bigHistory: one way with npar versions over a few nodes (child-location lists of npar entries).
+// bigHistory: one way with npar versions over six nodes whose edits are interleaved with the way's
+// versions, so that many NON-final versions carry several updates from different children
+// (child-location lists of npar entries; per-version lists produced in map order).
 func bigHistory(npar int, idBase int) *annot.Input {
 	in := &annot.Input{Threshold: 30 * time.Minute, Regime: "commit"}
 	base := osm.CommitInfoStart.Add(300 * 24 * time.Hour)
 	var fids []osm.FeatureID
-	for i := 0; i < 3; i++ {
+	for i := 0; i < 6; i++ {
 		fid := osm.NodeID(idBase + i).FeatureID()
 		fids = append(fids, fid)
 		h := annot.Hist{FID: fid}
-		for v := 1; v <= 3; v++ {
-			t := base.Add(time.Duration(v-1) * 20 * time.Hour)
+		t0 := base
+		c0 := t0
+		h.Versions = append(h.Versions, annot.Hver{Version: 1, Changeset: 1, Timestamp: t0, Committed: &c0, Lat: 1, Lon: float64(i), Visible: true})
+		// later versions: between parent k and k+1 for k = 3, 6, 9, ... (shifted per node)
+		v := 2
+		for k := 2 + i%3; k < npar+2; k += 3 {
+			t := base.Add(time.Hour + time.Duration(k)*10*time.Minute + time.Duration(5-i)*time.Minute)
 			c := t
 			h.Versions = append(h.Versions, annot.Hver{Version: v, Changeset: int64(v), Timestamp: t, Committed: &c, Lat: float64(v), Lon: float64(i), Visible: true})
+			v++
 		}
 		in.Hists = append(in.Hists, h)
 	}
 	for p := 0; p < npar; p++ {
-		t := base.Add(time.Hour + time.Duration(p)*time.Minute)
+		t := base.Add(time.Hour + time.Duration(p)*10*time.Minute)
 		c := t
 		par := annot.Parent{Changeset: int64(100 + p), Visible: true, Timestamp: t, Committed: &c}
 		for _, f := range fids {
@@ -225,6 +245,91 @@ func bigHistory(npar int, idBase int) *annot.Input {
 		in.Parents = append(in.Parents, par)
 	}
 	return in
+}
+
+// twoFaults: two coinciding faults in the same parent version(s): one child with no visible
+// version (tolerated with IgnoreInconsistency) and another child without any history
+// (IgnoreMissingChildren is OFF): every run must fail, whatever child the map yields first.
+func twoFaults(npar int, extraGood int) *annot.Input {
+	in := &annot.Input{Threshold: 30 * time.Minute, Regime: "commit", IgnoreIncons: true}
+	base := osm.CommitInfoStart.Add(500 * 24 * time.Hour)
+	mk := func(h int) (time.Time, *time.Time) { t := base.Add(time.Duration(h) * time.Hour); c := t; return t, &c }
+	invisible, missing := osm.NodeID(2).FeatureID(), osm.NodeID(3).FeatureID()
+	var refs []annot.Ref
+	for g := 0; g < extraGood; g++ {
+		fid := osm.NodeID(10 + g).FeatureID()
+		ts, com := mk(0)
+		in.Hists = append(in.Hists, annot.Hist{FID: fid, Versions: []annot.Hver{{Version: 1, Changeset: 2, Timestamp: ts, Committed: com, Lat: 1, Lon: float64(g), Visible: true}}})
+		refs = append(refs, annot.Ref{FID: fid})
+	}
+	ts, com := mk(1)
+	in.Hists = append(in.Hists, annot.Hist{FID: invisible, Versions: []annot.Hver{{Version: 1, Changeset: 3, Timestamp: ts, Committed: com, Visible: false}}})
+	refs = append(refs, annot.Ref{FID: invisible}, annot.Ref{FID: missing})
+	for p := 0; p < npar; p++ {
+		pt, pc := mk(10 + p)
+		in.Parents = append(in.Parents, annot.Parent{Changeset: int64(50 + p), Visible: true, Timestamp: pt, Committed: pc, Refs: append([]annot.Ref(nil), refs...)})
+	}
+	return in
+}
+
+// bulkCase: one parent version with nch children of nver later versions each (nch*nver updates):
+// size thresholds.  The result is not shipped to Coq; observed are the number of updates, whether
+// the list is ordered, and whether nruns runs are identical (SHA-256 of the serialised result).
+// Coq checks the count against the specification (every later visible version of every child).
+func bulkCase(w *wire.Writer, nch, nver, nruns int) *wire.Case {
+	in := &annot.Input{Threshold: 30 * time.Minute, Regime: "commit"}
+	base := osm.CommitInfoStart.Add(700 * 24 * time.Hour)
+	pt := base.Add(time.Hour)
+	pc := pt
+	par := annot.Parent{Changeset: 1, Visible: true, Timestamp: pt, Committed: &pc}
+	for i := 0; i < nch; i++ {
+		fid := osm.NodeID(1000 + i).FeatureID()
+		par.Refs = append(par.Refs, annot.Ref{FID: fid})
+		h := annot.Hist{FID: fid}
+		for v := 0; v <= nver; v++ {
+			t := base
+			if v > 0 {
+				t = base.Add(2*time.Hour + time.Duration(v)*time.Second)
+			}
+			c := t
+			h.Versions = append(h.Versions, annot.Hver{Version: v + 1, Changeset: int64(v + 1), Timestamp: t, Committed: &c, Lat: float64(v % 90), Lon: float64(i % 180), Visible: true})
+		}
+		in.Hists = append(in.Hists, h)
+	}
+	in.Parents = []annot.Parent{par}
+	status, count, sorted, identical := 0, 0, true, true
+	first := ""
+	for r := 0; r < nruns; r++ {
+		o := in.Run()
+		if o.Status != 0 {
+			status = o.Status
+			break
+		}
+		count = len(o.Updates[0])
+		sorted = sorted && sortedITV(o.Updates[0])
+		k := fmt.Sprintf("%x", sha256.Sum256([]byte(o.Key())))
+		if r == 0 {
+			first = k
+		} else if k != first {
+			identical = false
+		}
+	}
+	c := &wire.Case{Class: "bulk"}
+	c.Int(3).Int(int64(nch)).Int(int64(nver)).Int(int64(nruns)).Int(int64(status)).Int(int64(count)).Bool(sorted).Bool(identical)
+	switch {
+	case status != 0:
+		c.OracleFail = "annotation of a large history failed"
+	case count != nch*nver:
+		c.OracleFail = fmt.Sprintf("%d updates for %d children x %d later versions (expected %d)", count, nch, nver, nch*nver)
+	case !identical:
+		c.OracleFail = "runs on equal input give different results"
+	case !sorted:
+		c.OracleFail = "an update list is not ordered by (index, timestamp, version)"
+	}
+	c.Desc = map[string]interface{}{"bulk": fmt.Sprintf("one way version (commit regime) referencing nodes 1000..%d, each with version 1 before the way and %d later versions one second apart; annotate.Ways run %d times", 1000+nch-1, nver, nruns),
+		"children": nch, "later_versions_each": nver, "observed_updates": count, "expected_updates": nch * nver, "ordered": sorted, "runs_identical": identical, "status": status}
+	w.Count(fmt.Sprintf("bulk:%d_updates", nch*nver))
+	return c
 }
 
 // seqCase: "annotation is a function of its input" across calls in one process: the small input is
@@ -354,7 +459,7 @@ func main() {
 	a := wire.ParseArgs()
 	rng := wire.Rng(a.Seed)
 	w := wire.NewWriter("C12", a.Seed, a.Tier)
-	w.Rule = "ANN: an edit history annotated 8 (quick) / 24 (thorough) times on deep copies through annotate.Ways / annotate.Relations; classes: option_sequence (an input with default options annotated before and after ONE call that passes every option), clock (a version stamped a moment ahead of the wall clock, half of the runs before and half after that instant; versions dated 2100), sequence (a small input annotated before and after an unrelated call with >= 64 parent versions in the same process), big, reannotate (full annotation, then filtered re-annotation of the same already annotated objects with ChildFilter; the model gets the second call's input), corpus (minimised past failures), ties (13-40 updates per parent, versions of one child in the same second, children repeated, versions stamped a few seconds before their predecessor), random histories (all regimes, errors, options). SORT: osm.Updates.SortByIndex on 0-40 updates with equal (index, timestamp) groups. Equal instants are represented with different *time.Location values. Non-trivial = at least one update produced (ANN) or >= 2 updates (SORT); distinct = distinct token streams."
+	w.Rule = "ANN: an edit history annotated 8 (quick) / 24 (thorough) times on deep copies through annotate.Ways / annotate.Relations; classes: bulk (one parent version with children x later versions updates around size thresholds 2048 ... 32768/65536; count, order and run-to-run identity observed, the count checked against the specification in Coq), two_faults (a child without visible version and a child without history in the same parent version, IgnoreInconsistency only), big (31/32/33/64/72 parent versions with interleaved child edits), option_sequence (an input with default options annotated before and after ONE call that passes every option), clock (a version stamped a moment ahead of the wall clock, half of the runs before and half after that instant; versions dated 2100), sequence (a small input annotated before and after an unrelated call with >= 64 parent versions in the same process), big, reannotate (full annotation, then filtered re-annotation of the same already annotated objects with ChildFilter; the model gets the second call's input), corpus (minimised past failures), ties (13-40 updates per parent, versions of one child in the same second, children repeated, versions stamped a few seconds before their predecessor), random histories (all regimes, errors, options). SORT: osm.Updates.SortByIndex on 0-40 updates with equal (index, timestamp) groups. Equal instants are represented with different *time.Location values. Non-trivial = at least one update produced (ANN) or >= 2 updates (SORT); distinct = distinct token streams."
 	nruns, nties, nrand, nsort, nreann := 8, 70, 100, 120, 50
 	if a.Tier == "thorough" {
 		nruns, nties, nrand, nsort, nreann = 24, 1200, 2500, 2500, 1200
@@ -373,8 +478,26 @@ func main() {
 		small := tieHistory(wire.Rng(int64(40+k)), 2, 4, k == 0)
 		big := bigHistory(64+8*k, 9000+10*k)
 		w.Add(seqCase(w, rng, small, big, nruns))
-		bc, _ := annCase(w, big, 2, "big")
+		bc, _ := annCase(w, big, 3, "big")
 		w.Add(bc)
+	}
+	// around the 32-version threshold
+	for _, np := range []int{31, 32, 33} {
+		bc, _ := annCase(w, bigHistory(np, 9100), 3, "big")
+		w.Add(bc)
+	}
+	// two coinciding faults: must fail in every map order
+	for _, sh := range [][2]int{{1, 0}, {1, 2}, {2, 1}, {3, 3}} {
+		c, _ := annCase(w, twoFaults(sh[0], sh[1]), 2*nruns, "two_faults")
+		w.Add(c)
+	}
+	// size thresholds of one update list
+	bulk := [][2]int{{3, 4}, {40, 820}}
+	if a.Tier == "thorough" {
+		bulk = [][2]int{{3, 4}, {2, 1024}, {16, 128}, {16, 511}, {8, 1022}, {40, 820}, {33, 993}, {64, 1024}, {66, 993}}
+	}
+	for _, b := range bulk {
+		w.Add(bulkCase(w, b[0], b[1], 3))
 	}
 	for _, commit := range []bool{true, false} {
 		w.Add(clockCase(w, nruns, commit))
@@ -482,6 +605,11 @@ func main() {
 			annot.EncUpdate(c, u)
 		}
 		c.Desc = "canary: sort observation newest-first within equal (index, timestamp)"
+		w.Add(c)
+		// (e) bulk observation with one update missing
+		c = &wire.Case{Class: "canary", Canary: 1}
+		c.Int(3).Int(5).Int(7).Int(3).Int(0).Int(34).Bool(true).Bool(true)
+		c.Desc = "canary: bulk case reporting 34 updates for 5 children x 7 later versions"
 		w.Add(c)
 	}
 	if err := w.Flush(a.Out, "Verif.C12.Check", 60); err != nil {
